@@ -452,6 +452,22 @@ type TableOpts struct {
 	Noise            int                        // NoiseSkipable|NoiseAlign: properties of other renderers that may be set on a third of the tables
 }
 
+// twins are pairs of different texts that a lossy key would take for the same text: equal 32-bit sums (FNV-1a,
+// FNV-1, CRC-32) at equal byte length but different display width; canonically equivalent spellings; texts that
+// differ only in case, in a trailing space, after a long common prefix, or in the middle.  Now and then both
+// members of a pair are planted into one table: whatever the library remembers about one text must not be used
+// for the other.
+var twins = [][2]string{
+	{"aaamra", "\u55ff\u55de"}, {"aaamrb", "\u55ff\u55dd"}, // FNV-1a 32
+	{"aabiba", "\u5686\u564f"}, {"aabibb", "\u5686\u564c"}, // FNV-1 32
+	{"cdaeha", "\u561b\u4eb8"}, {"cdaehb", "\u561b\u4ebb"}, // CRC-32 (IEEE)
+	{"Denver", "\u80d9\u53bb"}, {"London", "\u4f51\u7a2b"}, // FNV-1a 32
+	{"\u00e9", "e\u0301"}, {"\u00c5ngstr\u00f6m", "A\u030angstro\u0308m"},
+	{"abc", "ABC"}, {"x", "x "}, {"x", " x"}, {"a--b", "a++b"},
+	{"aaaaaaaaaaaaaaaaaaaaaaaaaaaaaaaaaaaaaaaaaaaaaaaaaaaaaaaaaaaaaaaa1", "aaaaaaaaaaaaaaaaaaaaaaaaaaaaaaaaaaaaaaaaaaaaaaaaaaaaaaaaaaaaaaaa2"},
+	{"same first line\nsecond", "same first line\nother second line"},
+}
+
 var scaleSizes = []int{17, 33, 64, 65, 66, 70, 129, 130, 257, 300}
 
 // Table draws a random table spec.
@@ -569,6 +585,24 @@ func (r *R) Table(o TableOpts) TableSpec {
 			s.Header = append(s.Header, it)
 		} else {
 			s.Rows = append(s.Rows, RowSpec{Items: []ItemSpec{it}})
+		}
+	}
+	if !o.NoScale && r.Chance(1, 25) {
+		// plant a pair of twins into two cells of the table (header cells included)
+		var slots []*ItemSpec
+		for j := range s.Header {
+			slots = append(slots, &s.Header[j])
+		}
+		for i := range s.Rows {
+			for j := range s.Rows[i].Items {
+				slots = append(slots, &s.Rows[i].Items[j])
+			}
+		}
+		if len(slots) >= 2 {
+			tw := Pick(r, twins)
+			a := r.Intn(len(slots))
+			b := (a + 1 + r.Intn(len(slots)-1)) % len(slots)
+			*slots[a], *slots[b] = StrItem(tw[0]), StrItem(tw[1])
 		}
 	}
 	if o.Noise&(NoiseSkipable|NoiseAlign) != 0 && r.Chance(1, 3) {
